@@ -19,6 +19,7 @@ import (
 	"path/filepath"
 	"regexp"
 	"regexp/syntax"
+	"sort"
 	"strconv"
 	"strings"
 	"unicode"
@@ -290,6 +291,20 @@ func randomPattern(rng *rand.Rand, depth int) string {
 	}
 }
 
+// foldRunes collects the runes of case-folded literals; their unicode.SimpleFold orbits are what regexp matches them against
+var foldRunes = map[rune]bool{}
+
+func collectFold(re *syntax.Regexp) {
+	if re.Op == syntax.OpLiteral && re.Flags&syntax.FoldCase != 0 {
+		for _, r := range re.Rune {
+			foldRunes[r] = true
+		}
+	}
+	for _, s := range re.Sub {
+		collectFold(s)
+	}
+}
+
 func observe(i int, pat string, rng *rand.Rand, withInputs bool) patObs {
 	o := patObs{K: "pat", I: i, Pat: []byte(pat)}
 	defer func() {
@@ -303,6 +318,7 @@ func observe(i int, pat string, rng *rand.Rand, withInputs bool) patObs {
 		if t, ok := coqRegex(tree); ok {
 			o.Ast = t
 		}
+		collectFold(tree)
 	}
 	re, rerr := regexp.Compile(pat)
 	o.ReErr = rerr != nil
@@ -633,5 +649,24 @@ func main() {
 		enc.Encode(observe(i, p, rng, true))
 		i++
 	}
+	// orbits of the folded literal runes (emitted after the patterns that use them)
+	type foldRec struct {
+		K     string  `json:"k"`
+		Table [][]int `json:"table"` // [rune, orbit...]
+	}
+	fr := foldRec{K: "folds"}
+	var keys []int
+	for r := range foldRunes {
+		keys = append(keys, int(r))
+	}
+	sort.Ints(keys)
+	for _, k := range keys {
+		row := []int{k}
+		for r1 := unicode.SimpleFold(rune(k)); r1 != rune(k); r1 = unicode.SimpleFold(r1) {
+			row = append(row, int(r1))
+		}
+		fr.Table = append(fr.Table, row)
+	}
+	enc.Encode(fr)
 	engineLevel(enc, *tmp, rng, *nengine)
 }
